@@ -16,11 +16,11 @@ impl IdentEnv for StrEnv {
     }
 }
 
-/// Erase `BytePos(<digits>)` (spans print as `BytePos(a)..BytePos(b)`).
+/// Erase `ByteIndex(<digits>)` (spans print as `ByteIndex(a)..ByteIndex(b)`).
 fn strip_positions(s: &str) -> String {
     let b = s.as_bytes();
     let mut out = Vec::with_capacity(b.len());
-    let pat = b"BytePos(";
+    let pat = b"ByteIndex(";
     let mut i = 0;
     while i < b.len() {
         if b[i..].starts_with(pat) {
@@ -40,11 +40,76 @@ fn strip_positions(s: &str) -> String {
     String::from_utf8(out).unwrap_or_default()
 }
 
+/// `implicit?<counter>` (the parser numbers the `?` of record patterns with a global counter).
+fn strip_implicit_counters(s: &str) -> String {
+    let b = s.as_bytes();
+    let pat = b"implicit?";
+    let mut out = Vec::with_capacity(b.len());
+    let mut i = 0;
+    while i < b.len() {
+        if b[i..].starts_with(pat) {
+            out.extend_from_slice(pat);
+            i += pat.len();
+            while i < b.len() && b[i].is_ascii_digit() {
+                i += 1;
+            }
+            out.push(b'_');
+            continue;
+        }
+        out.push(b[i]);
+        i += 1;
+    }
+    String::from_utf8(out).unwrap_or_default()
+}
+
+/// Doc comment contents are compared modulo trailing blanks of their lines (the formatter trims
+/// every output line).  Works on the Debug-escaped form: blank = ' ', `\t`, `\r`; newline = `\n`.
+fn normalise_doc_comments(s: &str) -> String {
+    let b = s.as_bytes();
+    let pat = b"content: \"";
+    let mut out: Vec<u8> = Vec::with_capacity(b.len());
+    let mut i = 0;
+    while i < b.len() {
+        if b[i..].starts_with(pat) {
+            out.extend_from_slice(pat);
+            i += pat.len();
+            // copy the escaped string, dropping blanks before `\n` and before the closing quote
+            let mut pending: Vec<u8> = Vec::new();
+            while i < b.len() && b[i] != b'"' {
+                if b[i] == b' ' {
+                    pending.push(b' ');
+                    i += 1;
+                } else if b[i] == b'\\' && i + 1 < b.len() {
+                    let c = b[i + 1];
+                    if c == b't' || c == b'r' {
+                        pending.extend_from_slice(&b[i..i + 2]);
+                    } else if c == b'n' {
+                        pending.clear();
+                        out.extend_from_slice(b"\\n");
+                    } else {
+                        out.append(&mut pending);
+                        out.extend_from_slice(&b[i..i + 2]);
+                    }
+                    i += 2;
+                } else {
+                    out.append(&mut pending);
+                    out.push(b[i]);
+                    i += 1;
+                }
+            }
+            continue;
+        }
+        out.push(b[i]);
+        i += 1;
+    }
+    String::from_utf8(out).unwrap_or_default()
+}
+
 /// `Ok(canonical tree)` when `src` parses without any error, `Err(message)` otherwise.
 pub fn canon_ast(src: &str) -> Result<String, String> {
     let tc: TypeCache<String, ArcType<String>> = TypeCache::default();
     match gluon_parser::parse_partial_root_expr(&mut StrEnv, &tc, src) {
-        Ok(root) => Ok(strip_positions(&format!("{:?}", root.expr()))),
+        Ok(root) => Ok(normalise_doc_comments(&strip_implicit_counters(&strip_positions(&format!("{:?}", root.expr()))))),
         Err((_, errs)) => Err(format!("{}", errs).replace('\n', " | ")),
     }
 }
